@@ -65,14 +65,16 @@ func (w *workingState[S, T]) Rebase(
 	}
 
 	var invalidated []T
+	var invalidatedIdx []int // Positions in w.Txs, ascending.
 
-	for _, tx := range w.Txs {
+	for i, tx := range w.Txs {
 		newState, err := w.addTx(ctx, w.curState, tx)
 		if err != nil {
 			if errors.As(err, new(TxInvalidError)) {
 				// Simple invalid transaction.
 				// Add it to the invalidated collection.
 				invalidated = append(invalidated, tx)
+				invalidatedIdx = append(invalidatedIdx, i)
 				continue
 			}
 
@@ -88,8 +90,22 @@ func (w *workingState[S, T]) Rebase(
 
 	// All transactions were applied or invalidated.
 	// Prune the invalidated transactions, if any exist.
-	if len(invalidated) > 0 {
-		w.Txs = slices.DeleteFunc(w.Txs, w.txDeleter(ctx, invalidated))
+	// This goes by position, not through the deleter:
+	// the deleter selects by value, so it would also drop a kept transaction
+	// that it cannot tell from an invalidated one (the same transaction
+	// submitted twice), leaving curState ahead of w.Txs.
+	if len(invalidatedIdx) > 0 {
+		kept := w.Txs[:invalidatedIdx[0]]
+		next := 0
+		for i := invalidatedIdx[0]; i < len(w.Txs); i++ {
+			if next < len(invalidatedIdx) && invalidatedIdx[next] == i {
+				next++
+				continue
+			}
+			kept = append(kept, w.Txs[i])
+		}
+		clear(w.Txs[len(kept):])
+		w.Txs = kept
 	}
 
 	return rebaseResponse[T]{Invalidated: invalidated}
